@@ -9,6 +9,19 @@ THEOREMS = ["c03_causal", "c03_failfast_first"]
 def run(ctx, H):
     per = 5 if ctx.tier == "quick" else 30
     base = E.make_cases(ctx, H, per, scripts=False)
+    # several faults at once (every leaf wrong, and two wrong siblings): a stop in the middle must really stop
+    for e in H.entries:
+        for _ in range(2 if ctx.tier == "quick" else 6):
+            p = K.gen_valid(e.ty, ctx.rng)
+            base.append(E.Case(e, K.corrupt_all(p, ctx.rng), "ov", [], True, "cont", 9))
+            seqs = [q for q in K.positions(p) if isinstance(K.get_at(p, q), list) and len(K.get_at(p, q)) >= 2]
+            if seqs:
+                q = ctx.rng.choice(seqs)
+                cur = list(K.get_at(p, q))
+                i = ctx.rng.randrange(len(cur) - 1)
+                cur[i] = {"m": [["zz", None]]}
+                cur[i + 1] = {"m": [["zz", None]]}
+                base.append(E.Case(e, K.set_at(p, q, cur), "ov", [], True, "cont", 2))
     # keep the payloads that make the keep-going run call the error type at least once
     kobs = E.run_cases(H, base)
     pairs = []
